@@ -29,6 +29,7 @@ fn sources() -> Vec<Src> {
         Src { name: "valid-code-only", text: ".message \"hello\"\nstart: ldi r17, 7\n.dw start, 0x1234\n".into(), extra: vec![], missing_source: false },
         Src { name: "valid-with-include", text: ".include \"inc/defs.inc\"\nldi r16, VALUE\n.eseg\n.dw VALUE\n".into(), extra: vec![("inc/defs.inc", ".equ VALUE = 77\n")], missing_source: false },
         Src { name: "valid-image-over-64k", text: big_org, extra: vec![], missing_source: false },
+        Src { name: "valid-image-over-1MiB", text: "ldi r16, 0x5a\n.org 0x80010\nldi r17, 0xa5\nrjmp pc\n".into(), extra: vec![], missing_source: false },
         Src { name: "empty", text: "".into(), extra: vec![], missing_source: false },
         Src { name: "comment-only", text: "; nothing here\n\n// at all\n".into(), extra: vec![], missing_source: false },
         Src { name: "eeprom-only", text: ".eseg\n.db 9, 8, 7\n".into(), extra: vec![], missing_source: false },
@@ -372,7 +373,7 @@ pub fn run(ctx: &Ctx) -> i32 {
     ctx.exhaustive.store(ctx.tier == Tier::Thorough, std::sync::atomic::Ordering::Relaxed);
     fw::finish(
         ctx,
-        "the avra-rs binary built from the working tree, run in fresh scratch directories: 14 sources (valid with/without EEPROM data, with include, image over 64 KiB, empty, comment-only, EEPROM-only, syntax / pass-2 / range / capacity / .error / missing-include failures, missing source) x 5 stems (a.asm, a.b.asm, no extension, sub-directory, absolute path) x 6 option sets over -o/-e/-v (quick: a covering slice; thorough: complete, dev and release binaries, strace leg) + 5 output faults (missing directory, path is a directory, parent is a regular file, /dev/full, name too long) on either output; sentinel files at the default output places; distinct_nontrivial = distinct (source, stem, options, fault) tuples",
+        "the avra-rs binary built from the working tree, run in fresh scratch directories: 15 sources (valid with/without EEPROM data, with include, images over 64 KiB and over 1 MiB, empty, comment-only, EEPROM-only, syntax / pass-2 / range / capacity / .error / missing-include failures, missing source) x 5 stems (a.asm, a.b.asm, no extension, sub-directory, absolute path) x 6 option sets over -o/-e/-v (quick: a covering slice; thorough: complete, dev and release binaries, strace leg) + 5 output faults (missing directory, path is a directory, parent is a regular file, /dev/full, name too long) on either output; sentinel files at the default output places; distinct_nontrivial = distinct (source, stem, options, fault) tuples",
         &[
             "expected images come from build_file in process on the same file; files are decoded with refmodel/ihex.rs",
             "an empty flash image producing no file (message, exit 0) is accepted; HOME and XDG_CONFIG_HOME point into the scratch directory",
